@@ -969,4 +969,26 @@ def wasmDispatchTopOld (contract : Addr) : Top → Bool
   | .plain m => m.creator == contract
   | .exec _ _ => true
 
+/-! ## Several messages in one wrapper, and sequences of dispatches
+
+A `MsgExec` carries a LIST of messages, and a contract (or an account) sends many of them over the life of the node.  The
+gate is a function of the one dispatch in front of it: `verifyCreatorOf` returns the FIRST refusal met while walking the
+list (a refusal anywhere in the list refuses the whole dispatch, whatever follows it), and the router keeps nothing from
+one dispatch to the next. -/
+
+/-- `t` wrapped `k` more times by the grantee `g` -/
+def wrapTop (g : Addr) (t : Top) : Nat → Top
+  | 0 => t
+  | k + 1 => .exec g [wrapTop g t k]
+
+/-- the router's gate with its depth bound (`verifyCreatorOf` fails at an `MsgExec` met at depth `cMaxNestedMsgDepth`) -/
+def wasmDispatchTopBounded (contract : Addr) (t : Top) : Bool :=
+  decide (t.depth ≤ maxNesting) && wasmDispatchTop contract t
+
+/-- the gate over the life of a router value: the verdicts on a sequence of dispatches (the router has no memory) -/
+def wasmRouterRun (contract : Addr) (ts : List Top) : List Bool := ts.map (wasmDispatchTopBounded contract)
+
+/-- the decorator over a sequence of transactions (one top-level message each; the grants may differ per transaction) -/
+def anteRun (txs : List (List Top × (Addr → Addr → Bool))) : List Bool := txs.map fun x => anteOkTopBounded x.1 x.2
+
 end Paloma.Auth
